@@ -4,17 +4,17 @@
 From IoosQc Require Import Base Generated FlatLine FlatLineProofs.
 
 
-(* on every regularly sampled series with a whole-second step D >= 1, every length (short series included), every missing pattern, all durations >= 0 (non-multiples of the step, shorter than a step, longer than the series) and every tolerance: the operational model (median step, count = int(threshold)/step, strided windows minus the last row, n_fill leading False, SUSPECT then FAIL then MISSING) equals the property's per-point specification with k = floor(threshold / D) *)
+(* on every regularly sampled series with ANY positive step d ns (D = d / 10^9 seconds: whole, fractional or below one second), every length (short series included), all placements of missing values and non-negative durations: model = specification with k = floor(threshold / D) *)
 Theorem C11_refines :
-  forall (D : Z) (st ft tol : Q) (xs : list obs) (ts : list Z),
-         regular_ns (D * NS) ts ->
-         (1 <= D)%Z ->
+  forall (d : Z) (st ft tol : Q) (xs : list obs) (ts : list Z),
+         regular_ns d ts ->
+         (0 < d)%Z ->
          length ts = length xs ->
-         0 <= st -> 0 <= ft -> flat_model st ft tol xs ts = flat_spec (inject_Z D) st ft tol xs.
+         0 <= st -> 0 <= ft -> flat_model st ft tol xs ts = flat_spec (step_q d) st ft tol xs.
 Proof. exact (@flat_refines). Qed.
 Print Assumptions C11_refines.
 
-(* truncating the threshold before dividing is harmless: floor(floor(thr)/D) = floor(thr/D) *)
+(* a fact about floors (the code truncated the threshold first before F18 was repaired): floor(floor(thr)/D) = floor(thr/D) for whole D *)
 Theorem C11_floor :
   forall (thr : Q) (D : Z),
          (1 <= D)%Z ->
@@ -22,10 +22,10 @@ Theorem C11_floor :
 Proof. exact (@floor_floor). Qed.
 Print Assumptions C11_floor.
 
-(* the source's window count is the property's k *)
+(* the source's window count trunc(threshold / step) is the property's k = floor(threshold / D), for every positive step *)
 Theorem C11_count_is_k :
-  forall (thr : Q) (D : Z),
-         0 <= thr -> (1 <= D)%Z -> Z.to_nat (count_of thr D) = kof thr (inject_Z D).
+  forall (thr : Q) (d : Z),
+         0 <= thr -> (0 < d)%Z -> Z.to_nat (count_of thr d) = kof thr (step_q d).
 Proof. exact (@count_of_kof). Qed.
 Print Assumptions C11_count_is_k.
 
@@ -110,8 +110,7 @@ Print Assumptions C11_short_no_flag.
 
 (* the median sampling interval of a regular axis is its step *)
 Theorem C11_median_regular :
-  forall (D : Z) (ts : list Z),
-         regular_ns (D * NS) ts -> (2 <= length ts)%nat -> median_step ts = D.
+  forall (d : Z) (ts : list Z), regular_ns d ts -> (2 <= length ts)%nat -> median_step ts = d.
 Proof. exact (@median_step_regular). Qed.
 Print Assumptions C11_median_regular.
 
@@ -137,19 +136,26 @@ Theorem C11_model_missing :
 Proof. exact (@flat_model_missing). Qed.
 Print Assumptions C11_model_missing.
 
-(* with a step that is NOT a whole number of seconds the code floors the step before dividing (k = 3/1 instead of floor(3/1.5)): KNOWN_FINDINGS F18 *)
-Theorem C11_fractional_step_refuted :
-  exists (D st ft tol : Q) (xs : list obs) (ts : list Z),
-           regular_ns 1500000000 ts /\
-           D * inject_Z NS == 1500000000 /\
-           length ts = length xs /\
-           (3 <= length xs)%nat /\
-           0 <= st /\
-           0 <= ft /\
-           flat_model st ft tol xs ts = Flags [GOOD; GOOD; GOOD; SUSPECT] /\
-           flat_spec D st ft tol xs = Flags [GOOD; GOOD; SUSPECT; SUSPECT].
-Proof. exact (@flat_fractional_refuted). Qed.
-Print Assumptions C11_fractional_step_refuted.
+(* a step of D whole seconds is D *)
+Theorem C11_whole_second_step :
+  forall D : Z, step_q (D * NS) == inject_Z D.
+Proof. exact (@step_q_whole). Qed.
+Print Assumptions C11_whole_second_step.
+
+(* the witness of the former deviation F18 (1.5 s step, 3 s duration: k = 2) now follows the property *)
+Theorem C11_fractional_step :
+  flat_model 3 100 (1 # 2) [Some 1; Some 1; Some 1; Some 1]
+           [0%Z; 1500000000%Z; 3000000000%Z; 4500000000%Z] = Flags [GOOD; GOOD; SUSPECT; SUSPECT].
+Proof. exact (@flat_fractional_ok). Qed.
+Print Assumptions C11_fractional_step.
+
+(* a 0.25 s step (on which the code used to divide by zero) follows the property: k = 2 and 4 *)
+Theorem C11_subsecond_step :
+  flat_model (1 # 2) 1 (1 # 2) [Some 1; Some 1; Some 1; Some 1; Some 1]
+           [0%Z; 250000000%Z; 500000000%Z; 750000000%Z; 1000000000%Z] =
+         Flags [GOOD; GOOD; SUSPECT; SUSPECT; FAIL].
+Proof. exact (@flat_subsecond_ok). Qed.
+Print Assumptions C11_subsecond_step.
 
 Theorem C11_assign_order : assign_order_flat_line_test = [GOOD; MISSING; SUSPECT; FAIL; MISSING].
 Proof. reflexivity. Qed.
